@@ -105,9 +105,14 @@ def gen_cases(rnd, n, langs=trees.BRACE, sweep_upto=0):
 
 def correspond(rnd, n, driver=DEFAULT_DRIVER, langs=trees.BRACE, sweep_upto=0, keep=50):
     cases = gen_cases(rnd, n, langs, sweep_upto)
-    replies = run_driver(driver, [trees.tree_request(lang, nodes) for (lang, nodes, _) in cases])
+    reqs = [trees.tree_request(lang, nodes) for (lang, nodes, _) in cases]
+    replies = run_driver(driver, reqs)
+    # does the forest lie in the tree-level canonical fragment (Spec/ProgTreeCanon.lean), to which the
+    # UNCONDITIONAL end-to-end theorems of Props/C01full.lean apply?
+    canon = [r == "ok 1" for r in run_driver(driver, ["canon" + q[len("tree"):] for q in reqs])]
     lexer_mismatch, generator_bug, fails, model_errors = [], [], [], []
-    counts = {"lexer_mismatch": 0, "generator_bug": 0, "oracle_failures": 0, "model_errors": 0, "compared": 0}
+    counts = {"lexer_mismatch": 0, "generator_bug": 0, "oracle_failures": 0, "model_errors": 0, "compared": 0,
+              "in_canonical_fragment_C01full": sum(canon)}
     nontrivial = set()
     dist = {"functions": 0, "max_depth": 0, "max_len": 0, "tokens": 0, "max_tokens": 0, "lines": 0,
             "forests_with_nested_functions": 0, "per_language": {}, "functions_per_language": {}}
